@@ -54,22 +54,22 @@ pub fn rule(prop: &str) -> &'static str {
     match prop {
         "C01" => "valid packets from the finite enumerations G2 (every code, flag combination, subscription option, property subset), random structure-aware values G1 and size-boundary packets G3, each encoded and decoded through the blocking, async (random delivery schedule) and poll (random schedule, future kept or re-created) front-ends; distinct = distinct encodings (64-bit fingerprint) of packets other than PINGREQ/PINGRESP",
         "C02" => "same valid-packet workload as C01 plus oversize packets (remaining length 2^28, 2^28+1, 2^28+65536 by payload, by code list and by property section alone); for each: encode_len vs bytes written, remaining-length field vs bytes following, every public Encodable part streamed into a sink vs its encode_len, body stream vs packet encoding; chk and rel builds must produce the same rolling hash; distinct = distinct encodings",
-        "C03" => "byte strings: all strings of length <= 2 (and all of length 3 in the thorough tier), every first byte x every one-byte length x five body shapes, random strings, byte-level and structure-aware corruptions of valid encodings, other-family encodings, maximal declared lengths; each fed to blocking, async, header, raw-header, poll (always-ready and scheduled) and the public per-type decoders under the panic / step / allocation monitors (plus Miri, ASan, memcheck layers); distinct = distinct inputs (exhaustive part counted directly, rest by fingerprint)",
-        "C04" => "complete frames with minimal var-ints: reference-encoded valid packets under random spellings, catalogue malformations, 1-3 structure-aware mutations with lengths recomputed, re-framed byte mutations, all control bytes x bodies of 0/1 bytes; poll decoder verdict and fields compared with the reference decoder's three-way classification; distinct = distinct frames that were either well-formed non-trivial and accepted or ill-formed and rejected",
+        "C03" => "byte strings: all strings of length <= 2 (and all of length 3 in the thorough tier), every first byte x every one-byte length x five body shapes, random strings, byte-level and structure-aware corruptions of valid encodings, other-family encodings, maximal declared lengths, and the deterministic validator-boundary catalogue (protocol name x level matrix complete and cut after the level byte, one pass of the C20 malformations); each fed to blocking, async, header, raw-header, poll (always-ready and scheduled) and the public per-type decoders under the panic / step / allocation monitors (plus Miri, ASan, memcheck layers); distinct = distinct inputs (exhaustive part counted directly, rest by fingerprint)",
+        "C04" => "complete frames with minimal var-ints: reference-encoded valid packets under random spellings, catalogue malformations, 1-3 structure-aware mutations with lengths recomputed, re-framed byte mutations, all control bytes x bodies of 0/1 bytes, and a property-level malformation (duplicate adjacent / non-adjacent, bad boolean, disallowed id) with its well-formed twin behind a filler property of every length up to 65,532 (quick: all < 2048, every offset = 255/0 mod 256, the last 2600); poll decoder verdict and fields compared with the reference decoder's three-way classification; distinct = distinct frames that were either well-formed non-trivial and accepted or ill-formed and rejected",
         "C05" => "streams (minimal packets of every type, non-minimal and over-long length fields, malformed and truncated frames, random strings, long packets with 2-4 byte headers) x delivery schedules: exhaustively every chunking x every subset of chunks preceded by Pending x trailing Pending x {future kept, re-created at every poll} for short streams, random edge-biased schedules and clone-and-resume for the rest; oracle = the uninterrupted run + transport log + state snapshots; distinct = distinct (stream, schedule, mode) triples",
         "C06" => "hostile byte strings (as C03 sources) with random trailing bytes plus one frame per don't-care row: blocking vs async with EOF mapped to incomplete, Header::decode vs decode_async, and poll vs both on strings that start with a complete frame; distinct = distinct inputs on which the poll decoder accepted or rejected with a non-remaining-length error (the cases where agreement is demanded)",
         "C07" => "valid packets (G2, G1, G3): every strict prefix (all cut positions up to 4 KiB, structure edges and 64 random cuts beyond) through blocking / async / poll, and five kinds of suffix through blocking / async; distinct = distinct encodings",
         "C08" => "sequences of 1-40 valid packets (mixed types, body-less packets, empty payloads, 2/3/4-byte headers adjacent) concatenated and decoded one at a time by the blocking decoder (advancing by encode_len and by the header helpers), the async decoder and the poll decoder on one scripted reader with chunk boundaries straddling packets; distinct = distinct streams",
-        "C09" => "valid packets: encode twice, encode_async under write schedules (exhaustive compositions x Pending placements for 2- and 4-byte packets, always-all / one-byte / random / Pending-first otherwise), and the body's streaming encoder into sinks accepting 1, 3 or all bytes per write; distinct = distinct encodings",
+        "C09" => "valid packets: encode twice, encode_async under write schedules (exhaustive compositions x Pending placements for 2- and 4-byte packets, always-all / one-byte / random / short-first-write / Pending-first otherwise), each against a plain sink and a gathering one (is_write_vectored, budget spent across slices), and the body's streaming encoder into sinks accepting 1, 3 or all bytes per write; distinct = distinct encodings",
         "C10" => "valid packets (all of G2 so that every code, property, flag and version number is hit, plus G1/G3) encoded by the crate and parsed by the independent reference decoder; the run is a harness error unless every table entry was observed on the wire; distinct = distinct encodings",
         "C11" => "manufactured accepted inputs: reference-encoded packets under all spellings (long forms, shuffled properties, non-minimal header lengths), lenient framings, trailing bytes, every don't-care shape, plus hostile mutations that happen to be accepted; every acceptance by any front-end is re-encoded and re-decoded on all front-ends; distinct = distinct inputs accepted by at least one front-end",
-        "C12" => "frames in which every text position in turn carries hostile text (overlong, surrogate, truncated, 0xFF, NUL, wildcards, multi-byte $share names) plus the C11 workload; every packet returned by any front-end is walked field by field; distinct = distinct inputs accepted by at least one front-end",
+        "C12" => "frames in which every text position in turn carries hostile text (overlong, surrogate, truncated, 0xFF, NUL, wildcards, multi-byte $share names), one ill-formed sequence (surrogate, overlong, > U+10FFFF) at every byte offset of a 65,535-byte topic, a 39 KiB reason string, a 32 KiB user-property value and a UTF-8-flagged payload of 131,075 (thorough 400,003) bytes, plus the C11 workload; every packet returned by any front-end is walked field by field; distinct = distinct inputs accepted by at least one front-end",
         "C13" => "every CONNECT of G2 (all flag combinations x 3.1 / 3.1.1 / 5.0) and random CONNECTs presented to the other family's three front-ends, with continuation through decode_with_protocol; all 256 levels x 15 protocol names through both families and Protocol::new; distinct = distinct CONNECT encodings + (family, name, level) triples",
-        "C14" => "valid packets x every byte position (all positions up to 2 KiB) x {nine io::ErrorKind values, clean EOF} for the async and poll decoders, x {error kinds, zero-length write, transient Interrupted} for encode_async and the streaming encoder; plus all conversions between the error types and io::Error; distinct = distinct host encodings + conversion cases",
+        "C14" => "valid packets x every byte position (all positions up to 2 KiB) x {nine io::ErrorKind values in five shapes: kind + text, bare kind, OS error code, wrapping another io::Error of a different kind as payload, wrapping it behind source(); clean EOF} for the async and poll decoders, x {error kinds, zero-length write, transient Interrupted} for encode_async and the streaming encoder; plus all conversions between the error types and io::Error; distinct = distinct host encodings + conversion cases",
         "C15" => "values of the variable byte integer domain (thorough: all 2^28 — exhaustive — for var_int_len, total_len, header_len, remaining_len, the writer and the reader via the Subscription Identifier property and decode_raw_header; the poll header state machine on all values < 2^22, every 257th value above and the last 4096; quick: all < 2^16, +-4096 around every width boundary and the top, 2M random); all continuation-bit patterns of 1-5 bytes; first invalid values; distinct = distinct values / patterns",
-        "C16" => "all strings of up to 7 (quick) / 8 (thorough) symbols over {'/','+','#','$','a',NUL,'é','𝄞'} behind each of 29 $share / $SYS prefix shapes and look-alikes, long strings around 65535 bytes, through TopicFilter::is_invalid / try_from and (sampled) inside v3/v5 SUBSCRIBE and UNSUBSCRIBE; distinct = strings enumerated (each visited once)",
+        "C16" => "all strings of up to 7 (quick) / 8 (thorough) symbols over {'/','+','#','$','a',NUL,'é','𝄞'} behind each of 29 $share / $SYS prefix shapes and look-alikes, long strings around 65535 bytes, and 14 marker patterns around two filler runs (1/2/3-byte characters) of every length 0..=150 (thorough 400), through TopicFilter::is_invalid / try_from and (sampled) inside v3/v5 SUBSCRIBE and UNSUBSCRIBE; distinct = strings enumerated (each visited once)",
         "C17" => "the valid filters of C16's enumeration plus long random valid filters: accessors vs the unique split, text round trip, ==/cmp/hash (two hashers) on all pairs within buckets of 64, decoded-vs-constructed filters; distinct = valid filters examined",
-        "C18" => "all strings of up to 7 / 8 symbols over {'/','+','#','$','S','a',NUL,'é'} behind 11 prefix shapes ('', '$share/', '$SYS/', '$sys/', '$SYS', and the markers in non-initial position), long strings around the limit, through TopicName::is_invalid / try_from / accessors and (sampled) the eight packet routes; distinct = strings enumerated",
+        "C18" => "all strings of up to 7 / 8 symbols over {'/','+','#','$','S','a',NUL,'é'} behind 11 prefix shapes ('', '$share/', '$SYS/', '$sys/', '$SYS', and the markers in non-initial position), long strings around the limit, six marker patterns around two filler runs of every length 0..=150 (thorough 400), through TopicName::is_invalid / try_from / accessors and (sampled) the eight packet routes; distinct = strings enumerated",
         "C19" => "pairs (identifier, amount): thorough all 65535 x 65536; quick all amounts for identifiers <= 300 and >= 65200, and amounts {0..300, 32760..32776, 65200..65535, p, p+-1, 65535-p} for the rest; checked against modular arithmetic on the cycle; distinct = pairs (each visited once)",
         "C20" => "valid host packets (G2 sample, G1, special hosts) x every applicable catalogue operator at every applicable position (36 rows); expected error declared by the operator and cross-checked against the reference decoder; poll result must be the documented variant with its payload, blocking/async as the row prescribes; distinct = distinct malformed frames",
         _ => "",
